@@ -25,7 +25,7 @@ namespace ss
             p.set("mode", "ts");
             int tasks = int(r.range(2, 4));
             p.set("tasks", tasks);
-            p.set("variant", profile == "C15T" ? 6ll : (long long)r.below(12)); // C15T: the process-wide counters only
+            p.set("variant", profile == "C15T" ? 6ll : (long long)r.below(13)); // C15T: the process-wide counters only
             p.set("lock_fail", r.chance(2, 3) ? (long long)r.range(1, 12) : 0); // variant 11: the k-th lock() throws
             p.set("budget", 5000);
             auto ns = r.pick<long long>({8, 16, 32, 64});
